@@ -4,6 +4,8 @@ import (
 	"fmt"
 	"gopkg.in/src-d/hercules.v10/verifharness/hv"
 	"math/rand"
+	"sort"
+	"strings"
 
 	"gopkg.in/src-d/hercules.v10/internal/rbtree"
 )
@@ -28,10 +30,39 @@ func main() {
 		t := rbtree.NewRBTree(alloc)
 		fmt.Fprintln(wo, "new")
 		fmt.Fprintln(wi, "ok")
+		// Go-side statement of C05 (oracle): a reference map, and one held iterator per live element
+		ref := map[uint32]uint32{}
+		held := map[uint32]rbtree.Iterator{}
+		var opsLog []string
+		caseJSON := func() string {
+			return fmt.Sprintf(`{"ops":%q}`, strings.Join(opsLog, "; "))
+		}
 		keyRange := 4 + rng.Intn(60)
+		// keys: small integers, or (every third tree) an increasing table spread over the whole uint32 range with the
+		// boundaries 0, 2^31-1, 2^31 and 2^32-1, so that differences of keys exceed 31 bits
+		keys := make([]uint32, keyRange+2)
+		for i := range keys {
+			keys[i] = uint32(i)
+		}
+		if rng.Intn(3) == 0 {
+			set := map[uint32]bool{0: true, 1<<31 - 1: true, 1 << 31: true, 1<<32 - 1: true}
+			for len(set) < len(keys) {
+				if rng.Intn(3) == 0 {
+					set[uint32(rng.Intn(50))] = true
+				} else {
+					set[rng.Uint32()] = true
+				}
+			}
+			var ks []uint32
+			for k := range set {
+				ks = append(ks, k)
+			}
+			sort.Slice(ks, func(i, j int) bool { return ks[i] < ks[j] })
+			copy(keys, ks[:len(keys)])
+		}
 		n := 5 + rng.Intn(120)
 		for i := 0; i < n; i++ {
-			k := uint32(rng.Intn(keyRange))
+			k := keys[rng.Intn(keyRange)]
 			var flag bool
 			if rng.Intn(5) < 3 {
 				v := uint32(rng.Intn(1000))
@@ -42,6 +73,14 @@ func main() {
 				}
 				fmt.Fprintf(wo, "ins %d %d %d\n", k, v, id)
 				flag = ok
+				opsLog = append(opsLog, fmt.Sprintf("ins %d=%d", k, v))
+				if _, had := ref[k]; had == ok {
+					hv.Fail("ordered-map", caseJSON(), fmt.Sprintf("Insert of key %d reports %v, the key was present: %v", k, ok, had))
+				}
+				if ok {
+					ref[k] = v
+					held[k] = iter
+				}
 			} else {
 				if rng.Intn(2) == 0 {
 					flag = t.DeleteWithKey(k)
@@ -52,6 +91,12 @@ func main() {
 					flag = false
 				}
 				fmt.Fprintf(wo, "del %d\n", k)
+				opsLog = append(opsLog, fmt.Sprintf("del %d", k))
+				if _, had := ref[k]; had != flag {
+					hv.Fail("ordered-map", caseJSON(), fmt.Sprintf("deleting key %d reports %v, the key was present: %v", k, flag, had))
+				}
+				delete(ref, k)
+				delete(held, k)
 			}
 			st, _ := alloc.VerifSnapshot()
 			root, mn, mx, cnt := t.VerifHeader()
@@ -59,9 +104,32 @@ func main() {
 				panic(err)
 			}
 			fmt.Fprintf(wi, "%v %s min=%d max=%d n=%d\n", flag, dump(st, root), mn, mx, cnt)
+			// iterator stability: every iterator obtained at insertion still denotes its element
+			for hk, hit := range held {
+				bad := ""
+				func() {
+					defer func() {
+						if r := recover(); r != nil {
+							bad = fmt.Sprint(r)
+						}
+					}()
+					if hit.Limit() || hit.NegativeLimit() || hit.Item().Key != hk || hit.Item().Value != ref[hk] {
+						bad = "it denotes another element or none"
+					}
+				}()
+				if bad != "" {
+					hv.Fail("iterator-stability", caseJSON(), fmt.Sprintf("the iterator obtained when key %d was inserted is no longer valid: %s", hk, bad))
+					delete(held, hk)
+				}
+			}
+			var sorted []uint32
+			for rk := range ref {
+				sorted = append(sorted, rk)
+			}
+			sort.Slice(sorted, func(i, j int) bool { return sorted[i] < sorted[j] })
 			// lookups
 			for q := 0; q < 2; q++ {
-				qk := uint32(rng.Intn(keyRange + 2))
+				qk := keys[rng.Intn(keyRange+2)]
 				sh := func(it rbtree.Iterator) string {
 					if it.Limit() || it.NegativeLimit() {
 						return "-"
@@ -79,10 +147,33 @@ func main() {
 					nx = sh(ge.Next())
 					pv = sh(ge.Prev())
 				} else {
-					nx = sh(t.FindGE(qk + 1))
+					if qk < 1<<32-1 { // no key is greater than the largest uint32 (qk+1 would wrap in the probe itself)
+						nx = sh(t.FindGE(qk + 1))
+					}
 					if qk > 0 {
 						pv = sh(t.FindLE(qk - 1))
 					}
+				}
+				wantGE, wantLE := "-", "-"
+				for _, sk := range sorted {
+					if sk >= qk && wantGE == "-" {
+						wantGE = fmt.Sprintf("%d/%d", sk, ref[sk])
+					}
+					if sk <= qk {
+						wantLE = fmt.Sprintf("%d/%d", sk, ref[sk])
+					}
+				}
+				kv := func(it rbtree.Iterator) string {
+					if it.Limit() || it.NegativeLimit() {
+						return "-"
+					}
+					return fmt.Sprintf("%d/%d", it.Item().Key, it.Item().Value)
+				}
+				if kv(ge) != wantGE || kv(le) != wantLE {
+					hv.Fail("ordered-map", caseJSON(), fmt.Sprintf("key %d: FindGE=%s FindLE=%s, the map says %s and %s", qk, kv(ge), kv(le), wantGE, wantLE))
+				}
+				if rv, has := ref[qk]; has != (g != "-") || (has && g != fmt.Sprint(rv)) {
+					hv.Fail("ordered-map", caseJSON(), fmt.Sprintf("Get(%d)=%s, the map has %v/%d", qk, g, has, rv))
 				}
 				fmt.Fprintf(wo, "q %d\n", qk)
 				fmt.Fprintf(wi, "ge=%s le=%s get=%s next=%s prev=%s\n", sh(ge), sh(le), g, nx, pv)
